@@ -194,6 +194,7 @@ type SymOpts struct {
 	Assume    func(cond *T) (bool, bool)      // fixes the outcome of a branch condition (value, decided) to restrict the enumeration
 	Opaque    func(callee *ssa.Function) bool // never inline these, not even when they are newer than the rules
 	NoReturn  func(name string) bool          // calls that terminate the process (log.Fatal…): the path ends with outcome kind "exit"
+	Lists     bool                            // model slices the function builds itself (make(.., 0, ..) / nil + append) as explicit lists: len and constant indexing see through them
 }
 
 type symState struct {
@@ -429,6 +430,10 @@ func (sy *Sym) execFrom(fn *ssa.Function, b *ssa.BasicBlock, start int, st *symS
 			st.nobj++
 			st.env[x] = &T{Op: "obj", Name: fmt.Sprintf("map%d", st.nobj), Typ: x.Type(), s: fmt.Sprintf("map%d", st.nobj)}
 		case *ssa.MakeSlice:
+			if k, ok := x.Len.(*ssa.Const); ok && sy.opts.Lists && k.Value != nil && k.Value.ExactString() == "0" {
+				st.env[x] = &T{Op: "concat", Typ: x.Type(), s: ""}
+				break
+			}
 			st.nobj++
 			st.env[x] = &T{Op: "obj", Name: fmt.Sprintf("slice%d", st.nobj), Typ: x.Type(), s: fmt.Sprintf("slice%d", st.nobj)}
 		case *ssa.FieldAddr:
@@ -442,6 +447,12 @@ func (sy *Sym) execFrom(fn *ssa.Function, b *ssa.BasicBlock, start int, st *symS
 			base := sy.val(st, x.X)
 			if base.Op == "slice" && base.K != nil && len(base.Args) == 4 && rootsAtObj(base.Args[0]) {
 				base = base.Args[0] // element i of a[:] is element i of the local array a
+			}
+			if base.Op == "concat" {
+				if e := concatElem(base, sy.val(st, x.Index)); e != nil {
+					st.env[x] = &T{Op: "celem", Args: []*T{e}, Typ: x.Type()}
+					break
+				}
 			}
 			st.env[x] = &T{Op: "iaddr", Args: []*T{base, sy.val(st, x.Index)}, Typ: x.Type()}
 		case *ssa.Index:
@@ -529,6 +540,10 @@ func (sy *Sym) execFrom(fn *ssa.Function, b *ssa.BasicBlock, start int, st *symS
 			a := sy.val(st, x.X)
 			switch x.Op {
 			case token.MUL:
+				if a.Op == "celem" {
+					st.env[x] = a.Args[0]
+					break
+				}
 				if a.Op == "iaddr" && len(a.Args) == 2 {
 					if ft := frozenGlobalOfTerm(a.Args[0]); ft != nil && !ft.IsMap {
 						xx := x
@@ -787,6 +802,33 @@ func binT(op token.Token, x, y *T, typ types.Type) *T {
 	return mk(op.String(), x, y)
 }
 
+// concatElem: element idx (a constant) of a list the function built itself:
+// explicit elements first, then — only as the last part — the elements of an
+// appended list L, as L[idx - number of explicit elements].
+func concatElem(c *T, idx *T) *T {
+	if idx.Op != "const" || idx.K == nil {
+		return nil
+	}
+	i, ok := constant.Int64Val(idx.K)
+	if !ok || i < 0 {
+		return nil
+	}
+	for pi, p := range c.Args {
+		if p.Op == "spread" {
+			if pi != len(c.Args)-1 {
+				return nil
+			}
+			ia := &T{Op: "iaddr", Args: []*T{p.Args[0], {Op: "const", K: constant.MakeInt64(i), Typ: types.Typ[types.Int]}}}
+			return &T{Op: "load", Args: []*T{ia}}
+		}
+		if i == 0 {
+			return p
+		}
+		i--
+	}
+	return nil
+}
+
 func neverNilCall(t *T) bool {
 	if t == nil {
 		return false
@@ -1023,6 +1065,50 @@ func (sy *Sym) execCall(fn *ssa.Function, b *ssa.BasicBlock, i int, x *ssa.Call,
 				k(kind, why, res, s, pos)
 			}
 		})
+		return
+	}
+	if sy.opts.Lists && name == "builtin:append" && len(args) == 2 {
+		base := args[0]
+		if base.IsNil() {
+			base = &T{Op: "concat", Typ: x.Type()}
+		}
+		if base.Op == "concat" {
+			parts := append([]*T(nil), base.Args...)
+			switch {
+			case args[1].Op == "slice" && args[1].K != nil && rootsAtObj(args[1].Args[0]):
+				n, _ := constant.Int64Val(args[1].K)
+				for j := int64(0); j < n; j++ {
+					key := (&T{Op: "iaddr", Args: []*T{args[1].Args[0], {Op: "const", K: constant.MakeInt64(j), Typ: types.Typ[types.Int]}}}).String()
+					if v, ok := st.mem[key]; ok {
+						parts = append(parts, v)
+					} else {
+						parts = append(parts, &T{Op: "unknown", Name: "element " + key})
+					}
+				}
+			case args[1].Op == "concat":
+				parts = append(parts, args[1].Args...)
+			case args[1].IsNil():
+			default:
+				parts = append(parts, &T{Op: "spread", Args: []*T{args[1]}, Typ: args[1].Typ})
+			}
+			st.env[x] = &T{Op: "concat", Args: parts, Typ: x.Type()}
+			sy.execFrom(fn, b, i+1, st, depth, k)
+			return
+		}
+	}
+	if sy.opts.Lists && name == "builtin:len" && len(args) == 1 && args[0].Op == "concat" {
+		var total *T = &T{Op: "const", K: constant.MakeInt64(0), Typ: types.Typ[types.Int]}
+		cnt := int64(0)
+		for _, p := range args[0].Args {
+			if p.Op == "spread" {
+				total = binT(token.ADD, total, &T{Op: "call", Name: "builtin:len", Args: []*T{p.Args[0]}, Typ: types.Typ[types.Int]}, types.Typ[types.Int])
+			} else {
+				cnt++
+			}
+		}
+		total = binT(token.ADD, &T{Op: "const", K: constant.MakeInt64(cnt), Typ: types.Typ[types.Int]}, total, types.Typ[types.Int])
+		st.env[x] = total
+		sy.execFrom(fn, b, i+1, st, depth, k)
 		return
 	}
 	if (name == "builtin:len" || name == "builtin:cap") && len(args) == 1 && args[0].Op == "slice" && args[0].K != nil {
